@@ -125,6 +125,72 @@ def _real_graphs():
     return n, fails, samples
 
 
+def _conv2d_family(tier, seed):
+    """a 2-D convolution with BOTH projected ranks partitioned (shape or occupancy): the eager inputs of each outer loop
+    must be taken from the fiber of THAT rank; every loop order that keeps each rank's levels outermost-first"""
+    import itertools
+    import random
+    out = []
+    ranks = ["P1", "Q1", "R", "S", "P0", "Q0"]
+    orders = [o for o in itertools.permutations(ranks)
+              if o.index("P1") < o.index("P0") and o.index("Q1") < o.index("Q0")]
+    if tier != "thorough":
+        orders = random.Random(seed).sample(orders, 45) + [tuple(ranks)]
+    for pp, qq in (("uniform_shape(8)", "uniform_shape(10)"), ("uniform_occupancy(I.8)", "uniform_shape(10)"),
+                   ("uniform_shape(8)", "uniform_occupancy(I.10)")):
+        for o in orders:
+            y = ("einsum:\n  declaration:\n    F: [R, S]\n    I: [H, W]\n    O: [P, Q]\n  expressions:\n"
+                 "    - O[p, q] = I[p + r, q + s] * F[r, s]\nmapping:\n  partitioning:\n    O:\n      P: [%s]\n"
+                 "      H: [follow(P)]\n      Q: [%s]\n      W: [follow(Q)]\n  loop-order:\n    O: [%s]\n" % (pp, qq, ", ".join(o)))
+            out.append(("conv2d %s %s %s" % (pp, qq, "".join(o)), y))
+    return out
+
+
+def _eager_inputs(tier, seed):
+    """the one statement sequence of __build_project_interval that its contract abstracts (which rank of a tensor the loop
+    rank projects onto - sympy work) against an independent reading of the Einsum's text: in the real flow graph of the
+    2-D convolution family, the eager-input node of loop rank X1 has an edge from the fiber <t>_<r>1 of every tensor t it
+    lists, where r is the declared rank of t whose index expression mentions x"""
+    import re
+    from teaal.parse import Einsum, Mapping
+    from teaal.ir.program import Program
+    from teaal.ir.flow_graph import FlowGraph
+    from teaal.ir.flow_nodes import EagerInputNode, FiberNode
+    n, fails = 0, []
+    for name, y in _conv2d_family(tier, seed):
+        try:
+            es, ms = Einsum.from_str(y), Mapping.from_str(y)
+            prog = Program(es, ms)
+            prog.add_einsum(0)
+            FlowGraph(prog, None, ["hoist"])     # (only specifications the compiler accepts)
+            prog.reset()
+            prog.add_einsum(0)
+            # the graph as built, before pass-through nodes (fibers among them) are pruned
+            fg = object.__new__(FlowGraph)
+            fg.program, fg.metrics = prog, None
+            fg._FlowGraph__build()
+            gr = fg.graph
+        except Exception:      # noqa
+            continue
+        decl = es.get_declaration()
+        text = y.split("    - ", 1)[1].split("\n", 1)[0]
+        acc = {t: [x.strip() for x in idx.split(",")] for t, idx in re.findall(r"([A-Z][A-Za-z0-9]*)\[(.*?)\]", text)}
+        for node in gr.nodes():
+            if not isinstance(node, EagerInputNode):
+                continue
+            var = node.get_rank()[:-1].lower()
+            for t in node.get_tensors():
+                which = [decl[t][i] for i, ix in enumerate(acc[t]) if re.search(r"\b%s\b" % var, ix)]
+                n += 1
+                if len(which) != 1:
+                    continue
+                fiber = FiberNode(t.lower() + "_" + which[0].lower() + "1")
+                if not gr.has_edge(fiber, node):
+                    fails.append({"name": "bounded/eager-input-depends-on-the-projected-fiber",
+                                  "detail": "%s: no edge %r -> %r" % (name, fiber, node), "witness": {"spec": name, "yaml": y}})
+    return n, fails[:4]
+
+
 def _def_use(tier, seed):
     """the dependences that matter in the end are those of the emitted statements: every name a statement reads is
     bound by a statement placed before it on every path (definite-assignment analysis of props/C06.py), over a family
@@ -138,6 +204,7 @@ def _def_use(tier, seed):
     fam = hoist_family.specs(tier, seed)
     for path in sorted(glob.glob(REPO + "/tests/integration/*.yaml")):
         fam.append((path.rsplit("/", 1)[1], open(path).read()))
+    fam += _conv2d_family(tier, seed)
     n, fails = 0, []
     # metrics mode as well (header / footer nodes of eager bindings are placed by the same machinery): the repository's
     # accelerator specifications and their single-point binding-style variants
@@ -164,7 +231,8 @@ def _def_use(tier, seed):
 def bounded(uni, tier, seed):
     n, fails, samples = _real_graphs()
     n2, fails2 = _def_use(tier, seed)
-    n, fails = n + n2, fails + fails2
+    n3, fails3 = _eager_inputs(tier, seed)
+    n, fails = n + n2 + n3, fails + fails2 + fails3
     ev, f2, per = (0, [], {})
     if tier == "thorough":
         ev, f2, per = common.native_sweep(uni, _sidecars(), ["FlowGraph.__hoist"], limit=400)
@@ -172,7 +240,9 @@ def bounded(uni, tier, seed):
             "rule": "every Einsum of every tests/integration/*.yaml: real FlowGraph with and without hoisting - order "
                     "topological w.r.t. the real graph, loop brackets nested in loop order, same node multiset; the emitted "
                     "statements of the placement family (props/hoist_family.py, every level-respecting loop order) "
+                    "of a 2-D convolution with both projected ranks partitioned (every level-respecting loop order; quick: 46 of 180), "
                     "of the integration specs and (metrics mode) of the repository's accelerator specifications with their "
-                    "binding-style variants read only names bound earlier on every path; "
+                    "binding-style variants read only names bound earlier on every path; in the real graphs of the 2-D convolution family the "
+                    "eager-input node hangs below the fiber of the rank an independent reading of the Einsum text says it projects; "
                     "thorough adds random small DAGs fed to the real __hoist under the sidecar contract (bounded)",
             "samples": samples}
